@@ -51,9 +51,12 @@ fn peer_cache_contract<const LEN: usize>() {
     st.found_seg = 0;
     st.quiet = true;
     let mut cache = PeerCache::new();
+    // entry 0 may sit exactly one max cut below the new command (a direct parent, e.g. of a merge)
+    let adjacent: bool = kani::any();
+    let mc_of = |i: usize| -> u64 { if i == 0 && adjacent { 76 } else { 5 + i as u64 } };
     let mut i = 0;
     while i < LEN {
-        let _ = cache.heads.push(la(1 + i as u8, 1 + (i as u64 % 3), 5 + i as u64));
+        let _ = cache.heads.push(la(1 + i as u8, 1 + (i as u64 % 3), mc_of(i)));
         i += 1;
     }
     let mut buf = TraversalBuffer::new();
@@ -65,7 +68,7 @@ fn peer_cache_contract<const LEN: usize>() {
         assert!(cache.heads.len() == LEN && !has_mc(&cache, 77));
         let mut i = 0;
         while i < LEN {
-            assert!(has_mc(&cache, 5 + i as u64));
+            assert!(has_mc(&cache, mc_of(i)));
             i += 1;
         }
     } else {
@@ -75,7 +78,7 @@ fn peer_cache_contract<const LEN: usize>() {
         while i < LEN {
             let seg = 1 + (i % 3);
             // removed exactly when it is a proper ancestor of the new command
-            assert!(has_mc(&cache, 5 + i as u64) == !anc[seg][0]);
+            assert!(has_mc(&cache, mc_of(i)) == !anc[seg][0]);
             if !anc[seg][0] {
                 kept += 1;
             }
@@ -95,6 +98,35 @@ fn peer_cache_contract<const LEN: usize>() {
         kani::cover!(want_new && kept < LEN);
         kani::cover!(!want_new);
     }
+    mem::forget(r);
+}
+
+/// ⟦PeerCache::add_command⟧ recording a MERGE whose two parents are both cached (fixed relation, so this
+/// is cheap): both parents are ancestors of the new command, the first one sits exactly one max cut
+/// below it (a direct parent). Both must be removed and the merge recorded — no entry may stay next to
+/// a descendant ("no entry is an ancestor of another").
+#[kani::proof]
+#[kani::unwind(34)]
+fn c20_peer_cache_merge_replaces_both_parents() {
+    let mut st = MStorage::any();
+    let mut anc = [[false; 4]; 4];
+    anc[1][0] = true;
+    anc[2][0] = true;
+    st.anc = anc;
+    st.loc_mode = 4;
+    st.found_seg = 0;
+    st.quiet = true;
+    let mut cache = PeerCache::new();
+    let first_adjacent: bool = kani::any();
+    let (m0, m1) = if first_adjacent { (76, 40) } else { (40, 76) };
+    let _ = cache.heads.push(la(1, 1, m0));
+    let _ = cache.heads.push(la(2, 2, m1));
+    let mut buf = TraversalBuffer::new();
+    let addr = Address { id: id_of(99), max_cut: MaxCut::new(77) };
+    let r = cache.add_command(&st, addr, &mut buf);
+    assert!(r.is_ok());
+    assert!(cache.heads.len() == 1);
+    assert!(has_mc(&cache, 77) && !has_mc(&cache, 76) && !has_mc(&cache, 40));
     mem::forget(r);
 }
 
